@@ -17,7 +17,8 @@ BAD_SHAPES = [
     f"$[0:1:{MAXI + 1}]", f"$[?@[{MAXI + 1}] == 1]", f"$..[{MAXI + 1}]", f"$[0, {MAXI + 1}]",
     "$[?1]", "$[?'a']", "$[?true]", "$[?null]", "$[?1.5]", "$[?@.a && 1]", "$[?1 || @.a]", "$[?!true]", "$[?(1)]", "$[?@.a == 1 && 'x']",
 ]
-GOOD_SHAPES = [f"$[{MAXI}]", f"$[-{MAXI}]", f"$[:{MAXI}]", f"$[::-{MAXI}]", "$[0]", "$[-1]", "$[10]", "$[1, 2]", "$[ 1 , 2 ]", "$['a', 1, 1:2, *]", "$[?@.a == 1]", "$[?!@.a]", "$[?(@.a)]"]
+GOOD_SHAPES = ["$[?@[-1] == 3]", "$[?length(@[-1]) == 1]", "$[?@.a[-2].b == $[-1]]", "$[\"a\x7fb\"]", "$[?@['k\x7f'] == 1]", "$['\\\\\"']", "$[:]", "$[::]", "$[::1]",
+               f"$[{MAXI}]", f"$[-{MAXI}]", f"$[:{MAXI}]", f"$[::-{MAXI}]", "$[0]", "$[-1]", "$[10]", "$[1, 2]", "$[ 1 , 2 ]", "$['a', 1, 1:2, *]", "$[?@.a == 1]", "$[?!@.a]", "$[?(@.a)]"]
 
 
 def run(tier, seed):
